@@ -1,54 +1,37 @@
-import FstVerif.Model.Sink
+import FstVerif.Proofs.Sink
+import FstVerif.Proofs.Crc
 /-
-C07 — sink independence. (`C07_bytes` for every benign script is assembled
-from Proofs/Sink.lean; here: the one-call facts of the scripted sink and of
-the counting writer.)
+C07 — the bytes a sink ends up with do not depend on how it accepts writes.
+Statements here; proofs in Proofs/Sink.lean (write_all over scripted sinks,
+CountingWriter) with the chunking law of the checksum from Proofs/Crc.lean.
 -/
-namespace Fst
+namespace Fst.Props
+open Fst Fst.SinkProofs
 
-/-- one `write` call: what the call reports is what the sink's buffer grew by -/
-theorem C07_sink_write_count (s : Sink) (buf : List UInt8) (n : Nat)
-    (h : (s.write buf).2 = .ok n) :
-    (s.write buf).1.held.size = s.held.size + n ∧ n ≤ buf.length := by
-  unfold Sink.write at h ⊢
-  cases hs : s.script with
-  | nil =>
-    simp only [hs] at h ⊢
-    cases h; simp
-  | cons r rest =>
-    simp only [hs] at h ⊢
-    cases r with
-    | take k =>
-      simp only [Except.ok.injEq] at h
-      subst h
-      simp
-      omega
-    | interrupted => simp at h
-    | fail k => simp at h
+/-- the checksum's chunking law holds (Proofs/Crc.lean) -/
+theorem C07_chunk_law : ChunkLaw := fun s a b => Fst.C08_chunking s a b
 
-/-- a failing `write` call leaves the sink's buffer unchanged -/
-theorem C07_sink_write_err (s : Sink) (buf : List UInt8) (e : IoErr)
-    (h : (s.write buf).2 = .error e) : (s.write buf).1.held = s.held := by
-  unfold Sink.write at h ⊢
-  cases hs : s.script with
-  | nil => simp only [hs] at h; cases h
-  | cons r rest =>
-    simp only [hs] at h ⊢
-    cases r with
-    | take k => simp at h
-    | interrupted => rfl
-    | fail k => rfl
+/-- for every benign script (each call accepts ≥ 1 byte or is Interrupted), every
+prefill, every call sequence that the pure builder accepts: the builder over
+that sink succeeds, and the sink holds prefill ++ the in-memory build's bytes -/
+theorem C07_bytes (p : List UInt8) (script : List Resp) (hb : Benign script)
+    (ty rows cols : Nat) (calls : List Call) (b : BState) (bytes : List UInt8)
+    (hrun : BState.run (BState.new rows cols) calls = .ok b) (hfile : b.fileBytes ty = .ok bytes) :
+    ∃ cw x0 x s, IOB.new (Sink.new p script) ty rows cols = (cw, .ok x0) ∧
+      IOB.run x0 calls = some x ∧ x.b = b ∧ x.intoInner = (s, .ok ()) ∧
+      s.held = (p ++ bytes).toArray :=
+  Fst.SinkProofs.C07_bytes C07_chunk_law p script hb ty rows cols calls b bytes hrun hfile
 
-/-- the counting writer counts and checksums exactly the accepted prefix -/
-theorem C07_cw_write (c : CW) (buf : List UInt8) (s' : Sink) (n : Nat)
-    (h : c.sink.write buf = (s', .ok n)) :
-    c.write buf = ({ sink := s', cnt := c.cnt + n, summer := c.summer.update (buf.take n) }, .ok n) := by
-  simp [CW.write, h]
+/-- `bytes_written()` equals the number of bytes the sink has accepted, after any
+sequence of calls (accepted, rejected or failed) over ANY script -/
+theorem C07_count (prefill : Nat) (calls : List Call) (x : IOB) (h : CountInv prefill x.cw) :
+    CountInv prefill (IOB.runAny x calls).cw := C07_count_runAny prefill calls x h
 
-/-- a failed inner write changes neither the count nor the checksum -/
-theorem C07_cw_write_err (c : CW) (buf : List UInt8) (s' : Sink) (e : IoErr)
-    (h : c.sink.write buf = (s', .error e)) :
-    (c.write buf).1.cnt = c.cnt ∧ (c.write buf).1.summer = c.summer := by
-  simp [CW.write, h]
+theorem C07_count_init (sink : Sink) (ty rows cols : Nat) :
+    CountInv sink.held.size (IOB.new sink ty rows cols).1 := (C07_count_new sink ty rows cols).1
 
-end Fst
+/-- `write_all` never runs out of the model's fuel -/
+theorem C07_write_all_terminates (c : CW) (buf : List UInt8) :
+    writeAllWith CW.write (fuelFor c.sink buf) c buf = some (c.writeAll buf) := writeAll_fuel c buf
+
+end Fst.Props
